@@ -161,6 +161,81 @@ Example C13_sharing_nonvacuous :
   = [None; None; Some (VBool true); None; None].
 Proof. vm_compute. reflexivity. Qed.
 
+(* ---- every later operation after a restore (one instance) ----
+   An operation = any function of the attributes of an instance (answer + new attributes).  If answer and new exported
+   attributes depend on the exported attributes only (op_exported), then after dump -> load into a fresh instance EVERY
+   later sequence of such operations - removals, re-bindings, look-ups, ... - is answered as by the original.  A read of
+   an attribute in the table is such an operation; a read of an attribute outside the table is not, and for it the
+   statement is false (refuted variant, kept visible): the restored instance shows what the constructor put there.
+   The premise is tied to the code by the attribute census of the driver (chk_census over the regenerated tables: every
+   attribute a live token / grant / node / RP-store instance carries is exported, an init arg or a listed transient) and,
+   for the configuration-bearing classes, by comparing every non-exported attribute of the live instance with a fresh
+   and with the restored twin. *)
+Theorem C13_restore_equivalent_for_exported_operations : forall (R : Type) t sp o o0 (steps : list (fields -> fields * R)),
+  nodup_keys t = true -> obj_ok t sp o o0 = true -> Forall (op_exported t sp) steps ->
+  exists D o', dump_fields t sp o = Ok D /\ load_fields t sp o0 D = Ok o' /\ run_steps steps o' = run_steps steps o.
+Proof. exact (@restore_equiv_history). Qed.
+Print Assumptions C13_restore_equivalent_for_exported_operations.
+Theorem C13_read_of_exported_attribute : forall t sp a ty,
+  In (a, ty) t -> str_in a sp = false -> op_exported t sp (read_attr a).
+Proof. exact read_exported. Qed.
+Print Assumptions C13_read_of_exported_attribute.
+Theorem C13_read_of_nonexported_index_refuted :
+  nodup_keys ex_tab = true /\ obj_ok ex_tab [] ex_live ex_fresh_obj = true /\
+  exists D o', dump_fields ex_tab [] ex_live = Ok D /\ load_fields ex_tab [] ex_fresh_obj D = Ok o' /\
+               run_steps [read_attr s__map; read_attr ex_idx] ex_live
+                 = [Some (VDict [([110]%N, VStr [115]%N)]); Some (VDict [([115]%N, VList [VStr [110]%N])])] /\
+               run_steps [read_attr s__map; read_attr ex_idx] o'
+                 = [Some (VDict [([110]%N, VStr [115]%N)]); Some (VDict [])].
+Proof. exact restore_nonexported_refuted. Qed.
+Print Assumptions C13_read_of_nonexported_index_refuted.
+
+(* recorded finding restore-drops-session-manager-config, as a statement: the attributes the SessionManager constructor
+   takes from the configured session_params are outside the regenerated table of the class, so WHATEVER was exported, after
+   load() they are what the instance that load() filled had - and EndpointContext.load fills a session manager it has just
+   constructed from init_args alone (default minters, no clean-up): reading them is not an operation that "depends only on
+   exported attributes", and the equivalence above does not cover a provider configured with non-default session_params. *)
+Theorem C13_restore_session_manager_config_refuted :
+  forall a, In a session_manager_config_attrs ->
+  forall o0 D o', load_fields (class_table impexp_tables c_SessionManager) (specials_of impexp_tables c_SessionManager) o0 D = Ok o' ->
+                  assoc a o' = assoc a o0.
+Proof.
+  exact (config_outside_table_lost (class_table impexp_tables c_SessionManager) (specials_of impexp_tables c_SessionManager)
+           session_manager_config_attrs eq_refl).
+Qed.
+Print Assumptions C13_restore_session_manager_config_refuted.
+
+(* ---- the relying party's state store (client/current.py: _db state -> record, _map nonce / subject / session id /
+   logout state -> state) over the REGENERATED table of the class: export -> import into Current() gives the store back,
+   so a restore at any point of any history of set / update / bind_key / remove_state / get_base_key / get / keys /
+   further restores changes no later answer.  A store that kept an index NOT in the table (state -> bound keys, walked by
+   remove_state) answers the same while it lives (curi_live_agrees) and differently after a restore: the removed
+   session's nonce / subject still resolve and are exported again (refuted variant). *)
+Theorem C13_rp_store_restored : forall c, cur_restore (class_table impexp_tables c_Current) c = Ok c.
+Proof. exact (fun c => cur_restore_id (class_table impexp_tables c_Current) c eq_refl). Qed.
+Print Assumptions C13_rp_store_restored.
+Theorem C13_rp_store_restore_anywhere : forall c ops1 ops2,
+  cur_run (class_table impexp_tables c_Current) c (ops1 ++ CRestore :: ops2)%list
+  = (cur_run (class_table impexp_tables c_Current) c ops1
+     ++ CUnit :: cur_run (class_table impexp_tables c_Current) (cur_exec (class_table impexp_tables c_Current) c ops1) ops2)%list.
+Proof. exact (fun c ops1 ops2 => cur_restore_anywhere (class_table impexp_tables c_Current) c ops1 ops2 eq_refl). Qed.
+Print Assumptions C13_rp_store_restore_anywhere.
+Theorem C13_rp_store_index_live : forall t ops, forallb no_restore ops = true ->
+  curi_run t curi_empty ops = cur_run t cur_empty ops.
+Proof. exact (fun t ops H => curi_live_agrees t ops H curi_empty idx_inv_empty). Qed.
+Print Assumptions C13_rp_store_index_live.
+Theorem C13_rp_store_nonexported_index_refuted :
+  curi_run ex_tab curi_empty (ex_hist ++ ex_after)%list = cur_run ex_tab cur_empty (ex_hist ++ ex_after)%list
+  /\ cur_run ex_tab cur_empty (ex_hist ++ CRestore :: ex_after)%list
+     = [CUnit; CUnit; CUnit; CUnit; CUnit; CErrR KeyError; CErrR KeyError; CStateR [] []]
+  /\ curi_run ex_tab curi_empty (ex_hist ++ CRestore :: ex_after)%list
+     = [CUnit; CUnit; CUnit; CUnit; CUnit; CStrR ex_st; CStrR ex_st; CStateR [] [(ex_n, ex_st); (ex_sub, ex_st)]].
+Proof. exact curi_restore_refuted. Qed.
+Print Assumptions C13_rp_store_nonexported_index_refuted.
+(* the witness table is the regenerated one *)
+Example C13_rp_store_table_regenerated : class_table impexp_tables c_Current = ex_tab.
+Proof. vm_compute. reflexivity. Qed.
+
 (* ---- non-vacuity ---- *)
 Definition ex_ops : list op :=
   [OSet (PS "https://c.example.org/x?y=1&z") (PS " v1 "); OSet (PS "a b") (PS "v2"); OSet (PS "a+b") (PS "v3");
